@@ -166,3 +166,78 @@ Proof.
   split; [apply C09_trap_mod_assert_never_fails; [exact Hs | simpl; lia | reflexivity | reflexivity]|].
   split; vm_compute; reflexivity.
 Qed.
+
+(* ==================================================================================================================
+   SOURCE-DERIVED MODEL (DESIGN.md 0.5).  Gen/GridGen.v is regenerated from sparseSpACE/Grid.py by
+   harness/translate/py2gallina.py --target grid at every ./setup.sh C09 and ./check C09; the theorems below are therefore
+   re-checked against what the code says NOW.  Trusted reading: Python floats are exact rationals (Base/PyNum.v). *)
+From SG Require Import Base.PyLib Base.PyNum Gen.GridGen Proofs.GenGridEq.
+Open Scope Qc_scope.
+
+(* the function generated from GlobalTrapezoidalGrid.compute_weights IS the hand-written model compute_weights, for all
+   inputs; preconditions only where Python divides by zero / the documented one-point deviation of the model *)
+Theorem C09_gen_compute_weights_is_model : forall x a b mb,
+  (mb = true -> (4 <= length x)%nat -> nq x 1 <> nq x 2 /\ nq x (length x - 3) <> nq x (length x - 2)) ->
+  ~ (mb = true /\ length x = 1%nat /\ a = b) ->
+  GlobalTrapezoidalGrid_compute_weights x a b mb = compute_weights x a b mb.
+Proof. exact gen_compute_weights_eq. Qed.
+Print Assumptions C09_gen_compute_weights_is_model.
+Theorem C09_gen_compute_weights_is_model_on_trees : forall x a b mb,
+  strictly_increasing x -> length x <> 1%nat ->
+  GlobalTrapezoidalGrid_compute_weights x a b mb = compute_weights x a b mb.
+Proof. exact gen_compute_weights_increasing. Qed.
+Theorem C09_gen_compute_weights_degenerate : forall x0 a, GlobalTrapezoidalGrid_compute_weights [x0] a a true = Some [0].
+Proof. exact gen_compute_weights_degenerate. Qed.
+(* ... and the division precondition is exact: where it fails the Python divides by zero - the generated function has no result *)
+Theorem C09_gen_compute_weights_raises_on_zero_division : forall x a b, (4 <= length x)%nat ->
+  nq x 1 = nq x 2 \/ nq x (length x - 3) = nq x (length x - 2) ->
+  GlobalTrapezoidalGrid_compute_weights x a b true = None.
+Proof. exact gen_compute_weights_div0. Qed.
+Print Assumptions C09_gen_compute_weights_raises_on_zero_division.
+(* the method: self.modified_basis is a parameter of the generated function *)
+Theorem C09_gen_compute_1D_quad_weights : forall mb x a b d lv,
+  GlobalTrapezoidalGrid_compute_1D_quad_weights mb x a b d lv = GlobalTrapezoidalGrid_compute_weights x a b mb.
+Proof. exact gen_compute_1D_quad_weights_eq. Qed.
+Print Assumptions C09_gen_compute_1D_quad_weights.
+
+(* C09 for the generated definitions: unmodified basis, EVERY grid *)
+Theorem C09_gen_trap_is_pl_integral : forall x v a b w, length v = length x ->
+  GlobalTrapezoidalGrid_compute_weights x a b false = Some w ->
+  dotQ w v = pl_int (nq x) (nq v) 0 (length x - 1).
+Proof. exact gen_trap_is_pl_integral. Qed.
+Theorem C09_gen_trap_never_raises : forall x a b, exists w, GlobalTrapezoidalGrid_compute_weights x a b false = Some w.
+Proof. intros x a b. eexists. apply gen_plain_value. Qed.
+Theorem C09_gen_trap_sum : forall x a b w,
+  GlobalTrapezoidalGrid_compute_weights x a b false = Some w -> sumQ w = nq x (length x - 1) - nq x 0.
+Proof. exact gen_trap_sum. Qed.
+Theorem C09_gen_trap_linear_exact : forall x a b alpha beta w,
+  GlobalTrapezoidalGrid_compute_weights x a b false = Some w ->
+  dotQ w (map (fun t => alpha * t + beta) x) = lin_int alpha beta (nq x 0) (nq x (length x - 1)).
+Proof. exact gen_trap_linear_exact. Qed.
+Theorem C09_gen_trap_nonneg : forall x a b w q, sorted_le x = true ->
+  GlobalTrapezoidalGrid_compute_weights x a b false = Some w -> In q w -> 0 <= q.
+Proof. exact gen_trap_nonneg. Qed.
+Print Assumptions C09_gen_trap_is_pl_integral.
+Print Assumptions C09_gen_trap_nonneg.
+
+(* modified basis, every strictly increasing grid x_0 = a < ... < x_{n-1} = b, n >= 3: the generated function raises nothing
+   (its self-assert included), its weights integrate the linearly extrapolated interpolant and sum to b - a *)
+Theorem C09_gen_trap_mod_is_extrapolated_integral : forall x v a b,
+  strictly_increasing x -> (3 <= length x)%nat -> length v = length x -> nq x 0 = a -> nq x (length x - 1) = b ->
+  exists w, GlobalTrapezoidalGrid_compute_weights x a b true = Some w /\
+            dotQ w v = mod_int (nq x) (nq v) (length x) a b /\ sumQ w = b - a.
+Proof. exact gen_trap_mod_is_extrapolated_integral. Qed.
+Theorem C09_gen_trap_mod_linear_exact : forall x a b alpha beta,
+  strictly_increasing x -> (4 <= length x)%nat -> nq x 0 = a -> nq x (length x - 1) = b ->
+  exists w, GlobalTrapezoidalGrid_compute_weights x a b true = Some w /\
+            dotQ w (map (fun t => alpha * t + beta) x) = lin_int alpha beta a b.
+Proof. exact gen_trap_mod_linear_exact. Qed.
+Print Assumptions C09_gen_trap_mod_is_extrapolated_integral.
+Print Assumptions C09_gen_trap_mod_linear_exact.
+
+(* non-vacuity: the generated function computes the weights of the examples above *)
+Example C09_gen_nonvacuous : qs (GlobalTrapezoidalGrid_compute_weights g6 (q 0 1) (q 1 1) true) = Some [0; 1 # 4; 1 # 8; 1 # 8; 1 # 2; 0]%Q /\
+  qs (GlobalTrapezoidalGrid_compute_weights g6 (q 0 1) (q 1 1) false) = Some [1 # 16; 1 # 8; 3 # 16; 1 # 4; 1 # 4; 1 # 8]%Q /\
+  qs (GlobalTrapezoidalGrid_compute_weights g5 (q 0 1) (q 1 1) true) = Some [0; 1 # 4; -3 # 8; 9 # 8; 0]%Q /\
+  GlobalTrapezoidalGrid_compute_weights [q 0 1; q 1 2; q 1 2; q 3 4; q 1 1] (q 0 1) (q 1 1) true = None.
+Proof. repeat split; vm_compute; reflexivity. Qed.
